@@ -87,6 +87,22 @@ proofs = [
     Proof("MultiSpanProcessor_ForceFlush_bounded", [("MultiSpanProcessor::ForceFlush", 1)], harness=H_MSP, loop_contracts=False, unwind=5, level="bounded", timeout=300,
           bound_note="0..3 processors in the list, arbitrary results of their ForceFlush; everything inlined", desc="fan-out of ForceFlush: every processor once, success only if all succeed"),
 ]
+# "ForceFlush ... on the provider that owns them": TracerContext::ForceFlush / Shutdown (what TracerProvider forwards to) hand the call to the
+# processor exactly once with the caller's timeout and report its answer
+TU_TC = ("tu_tracer_context", '#include "%s/sdk/src/trace/tracer_context.cc"\n' % R.core.REPO)
+contracts["TracerContext_ForceFlush"] = {"pre":
+    "__CPROVER_requires(__CPROVER_is_fresh(self, sizeof(*self)) && g_ff_calls == 0)\n__CPROVER_assigns(g_ff_calls, g_all_ok, __CPROVER_object_whole(g_ff_proc))\n"
+    "__CPROVER_ensures(g_ff_calls == 1 && g_ff_proc[0] == (unsigned long)self->processor_ && g_sd_calls == __CPROVER_old(g_sd_calls))\n"
+    "__CPROVER_ensures((__CPROVER_return_value != 0) == (g_ff_ans[0] != 0))\n"}
+contracts["TracerContext_Shutdown"] = {"pre":
+    "__CPROVER_requires(__CPROVER_is_fresh(self, sizeof(*self)) && g_sd_calls == 0)\n__CPROVER_assigns(g_sd_calls, __CPROVER_object_whole(g_sd_proc))\n"
+    "__CPROVER_ensures(g_sd_calls == 1 && g_sd_proc[0] == (unsigned long)self->processor_ && g_ff_calls == __CPROVER_old(g_ff_calls))\n"
+    "__CPROVER_ensures((__CPROVER_return_value != 0) == (g_sd_ans[0] != 0))\n"}
+for _n in ("ForceFlush", "Shutdown"):
+    _ptc = Proof("TracerContext_" + _n, [("TracerContext::" + _n, 1)], enforce="TracerContext_" + _n, timeout=300,
+                 desc="the provider-level call reaches the processor exactly once with the caller's timeout and reports its answer")
+    _ptc.tu = TU_TC
+    proofs.append(_ptc)
 trusted = ("SpanProcessor / LogRecordProcessor::ForceFlush (virtual) as ghost answers",)
 assumptions = ("ONLY the return value and the fan-out of ForceFlush of the two multi processors are decided (one call, sequential); liveness, completeness under interleavings, finality of Shutdown, "
                "the batch processors' own ForceFlush/Shutdown protocol and the periodic reader are NOT covered",)
